@@ -193,6 +193,12 @@ def rule_b(ctx, ix, hub):
                         detached = True
             defs = [st for st in walk_no_nested(node) if isinstance(st, ast.Assign) and unparse(st.targets[0]) == it.id
                     and st.lineno < lp.lineno]
+            # `snapshot = pending` with `pending = self._queue`: one more name for the same list
+            for _ in range(3):
+                if defs and isinstance(defs[-1].value, ast.Name):
+                    nm_ = defs[-1].value.id
+                    defs = [st for st in walk_no_nested(node) if isinstance(st, ast.Assign) and unparse(st.targets[0]) == nm_
+                            and st.lineno < lp.lineno]
             resets = [st for st in walk_no_nested(node) if isinstance(st, ast.Assign) and unparse(st.targets[0]) == '%s._queue' % s
                       and st.lineno < lp.lineno and isinstance(st.value, (ast.List, ast.Call))]
             if defs and resets and unparse(defs[-1].value) == '%s._queue' % s and resets[-1].lineno > defs[-1].lineno:
